@@ -649,6 +649,8 @@ def run(ctx):
     hist = []
     run_histories(ctx, hist)
     run_model(ctx, hist)
+    from corr import C12_text
+    C12_text.run(ctx, hist, wire_schema)      # text part: second (total) model of the printer + text-level statement
     reset_state()
     from corr.C12_fresh import Zygote
     if Zygote._inst is not None:
